@@ -348,6 +348,116 @@ def gen_opaq(rng):
     return b"".join(elem(0, {}, None) for _ in range(rng.choice([1, 1, 2])))
 
 
+NCWD = "urn:ietf:params:xml:ns:netconf:default:1.0"
+OPAQ_NS2 = OPAQ_NS + [NCWD, "urn:verif:o4"]
+OPAQ_PFX2 = ["p", "q", "nc", "ncwd", "p1", "xc", "q2"]
+
+
+def gen_opaq_deep(rng, stats=None):
+    """the second family of opaque documents: a spine 3 to 9 elements deep with short side branches; the default namespace kept,
+    changed and changed back on the way down; seven prefixes for six namespaces (among them `p1` and `q2`, which are also what the
+    numbered-prefix loop generates), bound again at several levels — by element names, by attribute names and only by values;
+    up to five attributes per element from three and more namespaces (the with-defaults attribute `ncwd:default` on parents and
+    leaves among them); QName values in attributes and in character data whose prefix is inherited, declared on the element for
+    the value only, or re-bound there; declarations and attributes in any order in the start tag"""
+    D = rng.choice([3, 5, 7, 9])
+    st = {"rebind": 0, "dflt_change": 0, "attr_ns": 0, "qvals": 0, "depth": 0, "wd": 0}
+
+    NAMES = ["config", "server", "port", "x", "y", "top", "l"]
+
+    def elem(depth, scope, dflt, limit, name):
+        st["depth"] = max(st["depth"], depth)
+        decl, scope0, scope = {}, scope, dict(scope)
+        used = set()            # prefixes this start tag relies on: it cannot bind them to something else
+
+        def bind(pf, u):
+            if scope.get(pf) == u:
+                used.add(pf)
+                return True
+            if pf in decl or pf in used:
+                return False
+            if pf in scope0:
+                st["rebind"] += 1
+            decl[pf] = u; scope[pf] = u; used.add(pf)
+            return True
+
+        def qname():
+            if scope and rng.random() < 0.6:
+                vp = rng.choice(sorted(scope))
+                used.add(vp)
+            else:
+                vp = rng.choice(OPAQ_PFX2)
+                if not bind(vp, rng.choice(OPAQ_NS2)):
+                    return None
+            st["qvals"] += 1
+            return (vp + ":" + rng.choice(["x", "merge", "id-1"])).encode()
+
+        ns = dflt if dflt is not None and rng.random() < 0.5 else rng.choice(OPAQ_NS2[:3] + OPAQ_NS2[5:])
+        tag = None
+        if rng.random() < 0.25:
+            cands = [pf for pf, u in scope.items() if u == ns]
+            pf = rng.choice(cands) if cands and rng.random() < 0.5 else rng.choice(OPAQ_PFX2)
+            if bind(pf, ns):
+                tag = (pf + ":" + name).encode()
+        if tag is None:
+            tag = name.encode()
+            if dflt != ns:
+                if dflt is not None:
+                    st["dflt_change"] += 1
+                decl[None] = ns; dflt = ns
+        attrs, keys = [], set()
+        for _ in range(rng.choice([0, 1, 2, 2, 3, 4, 5])):
+            an = rng.choice(["operation", "tag", "a", "b", "default"])
+            if rng.random() < 0.12:
+                key, q = (None, an), an
+            else:
+                ans = NCWD if an == "default" and rng.random() < 0.8 else rng.choice(OPAQ_NS2)
+                cands = [pf for pf, u in scope.items() if u == ans]
+                if cands and rng.random() < 0.5:
+                    pf = rng.choice(cands)
+                    used.add(pf)
+                else:
+                    pf = rng.choice(OPAQ_PFX2)
+                    if not bind(pf, ans):
+                        continue
+                key, q = (ans, an), pf + ":" + an
+            if key in keys:
+                continue
+            if key == (NCWD, "default"):
+                val = b"true"
+                st["wd"] += 1
+            else:
+                val = rng.choice([b"delete", b"v", b"", b"a b", b"<&>\"'", b"t\tn\nr"])
+                if rng.random() < 0.4:
+                    val = qname() or val
+            keys.add(key)
+            attrs.append(b" " + q.encode() + b'="' + xesc(val, True) + b'"')
+        st["attr_ns"] = max(st["attr_ns"], len({k[0] for k in keys if k[0]}))
+        leaf = not (depth < limit and rng.random() < 0.9)
+        tx = b""
+        if leaf:
+            tx = rng.choice([b"", b"t", b"a&b", b"5"])
+            if rng.random() < 0.4:
+                tx = qname() or tx
+        parts = [b" xmlns" + (b":" + pf.encode() if pf else b"") + b'="' + xesc(u.encode(), True) + b'"' for pf, u in decl.items()] + attrs
+        rng.shuffle(parts)
+        o = b"<" + tag + b"".join(parts)
+        if not leaf:
+            # libyang keeps opaque siblings of one name together (lyd_insert_node), so equal names only next to each other
+            names = rng.sample(NAMES, rng.choice([1, 1, 2, 3]))
+            if rng.random() < 0.3:
+                k = rng.randrange(len(names))
+                names.insert(k, names[k])
+            deep = rng.randrange(len(names))
+            kids = [elem(depth + 1, scope, dflt, limit if k == deep else min(limit, depth + 2), nm) for k, nm in enumerate(names)]
+            return o + b">" + b"".join(kids) + b"</" + tag + b">"
+        return o + (b"/>" if not tx else b">" + xesc(tx) + b"</" + tag + b">")
+    doc = b"".join(elem(0, {}, None, D - 1, nm) for nm in rng.sample(NAMES, rng.choice([1, 1, 1, 2])))
+    if stats is not None:
+        stats.append(st)
+    return doc
+
+
 # hand-made documents for the paths of xml_print_ns the opaque model covers: a suggestion that is bound further out (numbered
 # prefix), a prefix reused from an ancestor although a value of the same element needs it for another namespace (reserved), the
 # numbered candidate itself taken, the same namespace under two prefixes with the first one re-bound in between (shadow check)
@@ -358,6 +468,21 @@ OPAQ_HAND = [
     b'<a xmlns="urn:o1" xmlns:p="urn:N1" xmlns:p1="urn:N3" p:x="1" p1:y="2"><b xmlns:p="urn:N2" p:z="3"><c xmlns:p="urn:N4" p:w="p1:k"/></b></a>',
     b'<a xmlns="urn:o1" xmlns:p="urn:N1" p:x="p:v"><b xmlns:q="urn:N1" q:x="1" xmlns:p="urn:N2">p:t</b><c xmlns="urn:o2" xmlns:q="urn:N1" q:y=""/></a>',
     b'<p:a xmlns:p="urn:o1" p:x="1"><p:b p:y="p:z"><c xmlns="urn:o2" xmlns:r="urn:o1" r:k="2">t</c></p:b></p:a>',
+    # the with-defaults attribute on opaque parents and leaves, its prefix declared far above
+    b'<top xmlns="urn:o1" xmlns:ncwd="urn:ietf:params:xml:ns:netconf:default:1.0"><c ncwd:default="true"><l ncwd:default="true">5</l>'
+    b'<m xmlns:ncwd="urn:N1" xmlns:w="urn:ietf:params:xml:ns:netconf:default:1.0" w:default="true" ncwd:k="ncwd:v"/></c></top>',
+    # a prefix bound to another namespace at each of eight levels, by names and by values only; `p1` taken when `p` needs a number
+    b'<a xmlns="urn:o1" xmlns:p="urn:N1" p:x="1"><b xmlns:p1="urn:N2" p1:y="2"><c xmlns:p="urn:N3" p:z="p1:k"><d xmlns:p="urn:N4" '
+    b'xmlns:q="urn:N1" q:w="p:v"><e xmlns="urn:o2" xmlns:p="urn:N5">p:t<!-- c --></e><f xmlns:p="urn:N6" k="p:v"><g xmlns="urn:o1" '
+    b'xmlns:p="urn:N7" p:a="1" xmlns:q="urn:N8" q:a="2" xmlns:r="urn:N9" r:a="3"><h xmlns:p="urn:N1" xmlns:p2="urn:N7" p:x="p2:y">p:z</h>'
+    b'</g></f></d></c></b></a>',
+    # default namespace there and back, character data with prefixes at the leaves
+    b'<a xmlns="urn:o1"><b xmlns="urn:o2"><c xmlns="urn:o1"><d xmlns="urn:o2" xmlns:x="urn:o1">x:v</d></c><c xmlns:x="urn:o2">x:v</c></b></a>',
+]
+# F300: an element in no namespace below an element with a default namespace (`xmlns=""`)
+OPAQ_F300 = [
+    b'<a xmlns="urn:o1"><b xmlns="">t</b></a>',
+    b'<a xmlns="urn:o1"><b xmlns="" xmlns:p="urn:N1" p:k="1"><c/></b><d/></a>',
 ]
 OPAQ_OUT_OF_FRAGMENT = [
     ("json", b'{"unk:x":{"y":1,"@y":{"rtx3:a":"1"}}}'),
@@ -369,7 +494,9 @@ OPAQ_OUT_OF_FRAGMENT = [
 def model_opaq_print(cx, views, ri):
     """the Lean model of the opaque-node part of the XML printer (LyModel/XmlTree/Ns2.lean, Opaq.lean; the variant of xml_print_ns
     the translator found in the source) applied to the view libyang reports of its tree must give libyang's shrunk output byte
-    for byte"""
+    for byte; the hypothesis `opaqOk` of the theorem `opaque_document_faithful` is evaluated (by the driver: the Lean definition
+    itself) on every view; where it holds, the independent reader of the theorem applied to LIBYANG's bytes must report exactly
+    what the theorem says (`oviewList` of the view)"""
     reqs, meta = [], []
     for i, (fmt, d) in views.items():
         r = ri.get(str(i), ["err", "NoReply"])
@@ -377,11 +504,12 @@ def model_opaq_print(cx, views, ri):
             cx.count(None, False, "rtx:opaq-model:not parsed (%s)" % " ".join(r[:2]))
             continue
         meta.append((d, unhex(r[1]), r[2]))
-        reqs.append("%d xmltree opaqprint %s" % (len(reqs), r[2]))
+        reqs.append("%d xmltree opaqcheck %s %s" % (len(reqs), r[2], r[1]))
     if not reqs:
         return
     rm = cx.run_model(reqs)
-    nattr = nout = 0
+    nattr = nout = nhyp = nread = 0
+    again = []
     for k, (d, px, view) in enumerate(meta):
         r = rm.get(str(k), ["err", "NoReply"])
         if r[:2] == ["err", "Unsupported"]:
@@ -390,12 +518,42 @@ def model_opaq_print(cx, views, ri):
             continue
         v = unhex(view)
         nattr += v.count(b"\nA ")
-        cx.count(("opaqview", view), True, "rtx:opaq-model:%s:numbered=%d" % (r[0], 1 if re.search(rb"xmlns:[a-z]+[0-9]+=", px) else 0))
-        if r[0] != "ok" or unhex(r[1]) != px:
-            cx.disagree("rtx-opaq-model", reqs[k][:6000], ["ok", hexs(px)[:3000]], [r[0], (r[1] if len(r) > 1 else "")[:3000]])
+        numbered = 1 if re.search(rb"xmlns:[a-z]+[0-9]+=", px) else 0
+        if r[0] != "ok" or len(r) < 7:
+            cx.count(("opaqview", view), True, "rtx:opaq-model:%s" % " ".join(r[:2]))
+            cx.disagree("rtx-opaq-model", reqs[k][:6000], ["ok", hexs(px)[:3000]], r[:3])
+            continue
+        hyp, why, same, read, loose, undecl = r[1:7]
+        if hyp != "1" and loose == "1" and undecl == "1":
+            hyp = "1"           # the source has the repair of F300: opaque_document_faithful_any_namespace applies
+            why = "-"
+        cx.count(("opaqview", view), True, "rtx:opaq-model:print=%s:numbered=%d" % ("same" if same == "1" else "DIFFERENT", numbered))
+        cx.count(None, False, "rtx:opaq-theorem:opaqOk=%s%s:reader on libyang's bytes %s" % (
+            hyp, "" if why == "-" else "(" + why + ")", {"1": "= oviewList", "0": "DIFFERENT", "x": "NOT WELL-FORMED"}.get(read, read)))
+        if same != "1":
+            again.append((k, px, view))
+        if hyp == "1":
+            nhyp += 1
+            if read == "1":
+                nread += 1
+            elif same == "1":
+                # the model prints what libyang prints, the hypothesis holds, the conclusion does not: the theorem would be wrong
+                cx.disagree("rtx-opaq-theorem", reqs[k][:6000], ["ok", "reader(libyang) = oviewList"], r[:7])
+        elif why == "no-namespace-under-default" and loose == "1" and same == "1" and read == "0" and b'xmlns=""' in d and b'xmlns=""' not in px:
+            cx.fail("rtx", "an opaque element in no namespace below a default namespace is printed without xmlns=\"\": it is read in the namespace of its ancestor",
+                    {"xml": d.decode("utf-8", "replace"), "xml_out": px.decode("utf-8", "replace")[:3000], "triage": "F300"})
+    if again:
+        rq = ["%d xmltree opaqprint %s" % (j, view) for j, (k, px, view) in enumerate(again)]
+        r2 = cx.run_model(rq)
+        for j, (k, px, view) in enumerate(again):
+            r = r2.get(str(j), ["err", "NoReply"])
+            cx.disagree("rtx-opaq-model", rq[j][:6000], ["ok", hexs(px)[:3000]], [r[0], (r[1] if len(r) > 1 else "")[:3000]])
     cx.rule("opaq-model: %d views of opaque forests (%d attribute lines) printed by the Lean model of xml_print_ns/xml_print_attr/"
             "xml_print_opaq = libyang's shrunk XML, byte for byte; %d more views are outside the model's fragment (data nodes, JSON-format "
             "opaque nodes) and only counted" % (len(meta) - nout, nattr, nout))
+    cx.rule("opaq-theorem: the hypothesis opaqOk of opaque_document_faithful (opaqOkAnyNs where the source has the repair of F300; the Lean definitions, run by the driver) holds of %d of the "
+            "%d views; for %d of these the independent reader XmlDoc.parseDoc applied to libyang's own bytes reports exactly oviewList "
+            "of the view (the conclusion of the theorem, on the real output)" % (nhyp, len(meta) - nout, nread))
 
 
 def run_opaq(cx):
@@ -408,13 +566,21 @@ def run_opaq(cx):
     searchdir = paths.REPO + "/tests/modules/yang"
     lines = ["0 rt ctx %s %s %s %s" % (hexs(searchdir), hexs(YANG1), hexs(YANG2), hexs(YANG3))]
     docs = {}
+    stats = []
     for i in range(n):
-        d = gen_opaq(rng)
+        d = gen_opaq(rng) if i % 2 == 0 else gen_opaq_deep(rng, stats)
         docs[len(lines)] = d
         lines.append("%d rt opaq %s" % (len(lines), hexs(d)))
+    for st in stats:
+        cx.count(None, False, "rtx:opaq-gen(deep):depth=%d" % st["depth"])
+        cx.count(None, False, "rtx:opaq-gen(deep):prefixes re-bound=%s" % (st["rebind"] if st["rebind"] < 5 else "5+"))
+        cx.count(None, False, "rtx:opaq-gen(deep):default namespace changes=%s" % (st["dflt_change"] if st["dflt_change"] < 5 else "5+"))
+        cx.count(None, False, "rtx:opaq-gen(deep):most attribute namespaces on one element=%d" % st["attr_ns"])
+        cx.count(None, False, "rtx:opaq-gen(deep):QName values=%s" % (st["qvals"] if st["qvals"] < 5 else "5+"))
+        cx.count(None, False, "rtx:opaq-gen(deep):with-defaults attributes=%s" % (st["wd"] if st["wd"] < 3 else "3+"))
     # (K) the printer's view of the same documents, for the Lean model of xml_print_ns / xml_print_attr / xml_print_opaq (v2)
     views = {}
-    for d in list(docs.values()) + OPAQ_HAND:
+    for d in list(docs.values()) + OPAQ_HAND + OPAQ_F300:
         views[len(lines)] = ("xml", d)
         lines.append("%d rt opaqview xml %s" % (len(lines), hexs(d)))
     for d in OPAQ_OUT_OF_FRAGMENT:
